@@ -870,7 +870,8 @@ fn run_file(rows: &[RowRun], deco: Deco, drv: &mut Driver, stored: bool) -> File
                         .iter()
                         .map(|c| {
                             format!(
-                                "{},{}*{}",
+                                "{}{},{}*{}",
+                                if c.covered { "c" } else { "" },
                                 id_of(&mut ids, data_key(&c.val.expected())),
                                 id_of(&mut fids, c.formula.clone().unwrap_or_default()),
                                 c.count()
